@@ -5368,7 +5368,7 @@ class Entity(object, metaclass=EntityMeta):
             else: sql, adapter = cached_sql
             arguments = adapter(values)
             cursor = database._exec_sql(sql, arguments, start_transaction=True)
-            if cursor.rowcount == 0 and cache.db_session.optimistic:
+            if cursor.rowcount == 0 and optimistic_session:
                 throw(OptimisticCheckError, obj.find_updated_attributes())
         obj._status_ = 'updated'
         obj._rbits_ |= obj._wbits_ & obj._all_bits_except_volatile_
